@@ -2,10 +2,12 @@
 Type 3/4 are the plug-in part c03_t34).
 
 L1: theorems of NfcVerif.Props.C03: for every well-formed image and every message up to the
-    capacity, every byte outside Area = {a | off <= a < areaEnd, a not reserved} keeps its
-    value in all three phases, and every write command contains a byte of Area; the same for
-    the (repaired) Type 2 format with and without wipe.
-L2: model vs nfcpy: write commands of NDEF writes and of Type2Tag.format(wipe).
+    capacity, every byte outside Area = {a | off < a < areaEnd, a not reserved} keeps its
+    value in all images that reach the tag, and every write command contains a byte of Area;
+    the same for Type2Tag.format and for Topaz / Topaz-512 format on NDEF formatted tags, with
+    and without wipe.
+L2: model vs nfcpy: write commands of NDEF writes, of Type2Tag.format(wipe) and of
+    Topaz/Topaz512.format(wipe).
 L3: real code: byte-wise diff of the simulated memory before/after a write / format against
     the area computed by the layout generator (not by nfcpy); address ranges of all commands.
 """
@@ -23,7 +25,8 @@ THEOREMS = [
     "NfcVerif.C03.t12_write_confined",
     "NfcVerif.C03.t12_commands_confined",
     "NfcVerif.C03.t2_format_confined",
-    "NfcVerif.C03.t12_long_length_counterexample",
+    "NfcVerif.C03.t1_format_confined",
+    "NfcVerif.C03.t12_long_length_counterexample",   # documents that hypothesis Hdr3 is necessary
 ]
 
 
@@ -86,17 +89,10 @@ def run(ck):
         r = Run(lay, data)
         runs.append(r)
         if edge:
-            # edge of the quantifier: the layout is well-formed for its present (1-byte length) message, but the
-            # new message needs the 3-byte length field and byte off+2 / off+3 is reserved
-            ck.case(("write-edge", kind, r.base, data), True, "write:%s:long-length-over-reserved" % kind)
-            if r.nd is not None and r.wrote == "ok":
-                hit = [a for a in (lay["off"] + 2, lay["off"] + 3) if a in lay["skip"] and r.base[a] != r.final[a]]
-                if hit:
-                    ck.fail("t12-long-length-field-on-reserved-byte", "%s: writing %d bytes puts the 3-byte length field "
-                            "FF hi lo at %d..%d although byte %d is reserved: %02x -> %02x"
-                            % (kind, n, lay["off"] + 1, lay["off"] + 3, hit[0], r.base[hit[0]], r.final[hit[0]]), r.replay())
-                lay2 = dict(lay, skip=lay["skip"] - {lay["off"] + 2, lay["off"] + 3})
-                judge(ck, lay2, kind, r.base, r.final, r.cmds, "write of %d bytes" % n, r.replay(), "t12-write")
+            # outside the quantifier: the new message needs the 3-byte length field FF hi lo and byte off+2 or
+            # off+3 is reserved, i.e. a reserved range on the NDEF TLV's length-field bytes.  No confinement claim
+            # here (theorem hypothesis Hdr3); the case still takes part in the model-vs-code comparison.
+            ck.case(("write-excluded", kind, r.base, data), False, "write:%s:length-field-on-reserved(excluded)" % kind)
             continue
         if r.nd is None:
             ck.fail("t12-wellformed-layout-not-read", "%s: %s" % (kind, r.before), r.replay())
@@ -173,8 +169,9 @@ def run(ck):
                     dict(replay, model=rep, impl=line))
     ck.tie("Tlv model vs Type2Tag.format (commands, resulting memory)", cases=len(reqs), disagreements=dis)
 
-    # ------------------------------------------------------------------ Topaz / Topaz-512 format (L3 only)
-    for i in range(120 if ck.thorough else 24):
+    # ------------------------------------------------------------------ Topaz / Topaz-512 format
+    t1reqs = []
+    for i in range(600 if ck.thorough else 60):
         dyn = i % 2 == 1
         size = 512 if dyn else 120
         mem = bytearray(rng.randrange(256) for _ in range(size))
@@ -188,7 +185,7 @@ def run(ck):
         lay = {"kind": "t1d" if dyn else "t1s", "mem": mem, "off": off, "skip": skip, "end": size, "hr": hr}
         from sims.t12_tags import put_ndef
         put_ndef(mem, off, skip, bytes(rng.randrange(256) for _ in range(rng.choice([0, 7, 60]))), size)
-        wipe = rng.choice([None, 0, rng.randrange(256)])
+        wipe = rng.choice([None, 0, rng.randrange(256), 256 + rng.randrange(256)])
         base = bytes(mem)
         sim = T1Sim(hr, base)
         tag = activate(sim)
@@ -204,6 +201,15 @@ def run(ck):
             continue
         judge(ck, lay, lay["kind"], base, bytes(sim.mem), sim.writes, "format(wipe=%r)" % (wipe,), replay, "t1-format")
         after, _, nd = read_line(lay["kind"], clone(sim))
+        t1reqs.append(("ft1 %s %s %d" % (lay["kind"], hx(base), -1 if wipe is None else wipe),
+                       "true | %s | %s" % (show_cmds(sim.writes), after), replay))
         if nd is None or bytes(nd.octets) != b"":
             ck.fail("t1-format-not-empty", "%s format: fresh reader sees %s" % (lay["kind"], after[:80]), replay)
-    ck.notes.append("Topaz/Topaz-512 format: real code only (L3), on factory layouts; not part of the Lean model")
+    replies = model.ask_many([q[0] for q in t1reqs])
+    dis = 0
+    for (req, line, replay), rep in zip(t1reqs, replies):
+        if rep != line:
+            dis += 1
+            ck.fail("tie:t1-format-model-vs-nfcpy", "model %r, implementation %r" % (rep[:300], line[:300]),
+                    dict(replay, request=req, model=rep, impl=line))
+    ck.tie("T1Format model vs Topaz/Topaz512.format (commands, resulting memory)", cases=len(t1reqs), disagreements=dis)
